@@ -52,7 +52,9 @@ Theorem C13_reads_after_finish_bounded :
 Proof. exact reads_after_finish_bounded. Qed.
 
 (** Echo: requested explicitly, or by default for terminal input without a pty
-    (finite table 3 x 2 x 2), and then exactly the forwarded text. *)
+    (finite table 3 x 2 x 2; definitional -- model and spec state the same rule in
+    two ways; the tie to the code is the correspondence), and then exactly the
+    forwarded text. *)
 Theorem C13_echo_table :
   forall echo pty tty, echo_effective echo pty tty = echo_wanted echo pty tty.
 Proof. exact echo_table. Qed.
@@ -66,7 +68,8 @@ Theorem C13_echo_text :
 Proof. exact echo_text. Qed.
 
 (** Input stream disabled: nothing forwarded, nothing closed, nothing echoed;
-    watcher responses still reach the command. *)
+    watcher responses still reach the command.  (Definitional: [stdin_model] has no
+    stdin worker then, exactly as create_io_threads creates none.) *)
 Theorem C13_disabled_forwards_nothing :
   forall e echo pty s resp,
     stdin_model (mkSin e None echo pty s resp) = mkSobs (Some []) 0 [] true (encode e (List.concat resp)).
